@@ -151,7 +151,7 @@ def _create_constraint(
     if mjd is not None:
       shape = tuple(sizes[dim] if isinstance(dim, str) else dim for dim in f.type.shape)
       val = np.zeros(shape, dtype=wp.dtype_to_numpy(f.type.dtype))
-      if f.name in ("type", "id", "pos", "margin", "D", "vel", "aref", "frictionloss", "force"):
+      if f.name in ("type", "id", "pos", "margin", "D", "vel", "aref", "frictionloss", "state", "force"):
         val[:, : mjd.nefc] = np.tile(getattr(mjd, "efc_" + f.name), (nworld, 1))
       efc_kwargs[f.name] = wp.array(val, dtype=f.type.dtype)
     else:
